@@ -46,6 +46,10 @@ pub struct BlockSpec {
     /// adversarial header lie applied after honest construction
     #[serde(default)]
     pub corrupt: Option<BlockEdit>,
+    /// alternative parent choice: the block built `back`+1 positions before this one (0 = the
+    /// most recently built block); overrides `parent` when set
+    #[serde(default)]
+    pub back: Option<u8>,
 }
 
 #[derive(Debug, Clone, Serialize, Deserialize, PartialEq, Eq, Hash)]
@@ -392,9 +396,10 @@ pub async fn build_history(spec: &HistSpec) -> Built {
     let mut invalid: Vec<Option<String>> = vec![None];
 
     for (n, bs) in spec.blocks.iter().enumerate() {
-        let pidx = match bs.parent {
-            None => blocks.len() - 1,
-            Some(sel) => (sel as usize * blocks.len()) >> 16,
+        let pidx = match (bs.back, bs.parent) {
+            (Some(k), _) => blocks.len().saturating_sub(1 + k as usize),
+            (None, None) => blocks.len() - 1,
+            (None, Some(sel)) => (sel as usize * blocks.len()) >> 16,
         };
         let phash = blocks[pidx].hash;
         let mut node = match tips.remove(&phash) {
@@ -547,7 +552,7 @@ pub fn arb_blockspec(fork: bool) -> impl Strategy<Value = BlockSpec> {
             miner,
             txs,
             bad_tx: None,
-            corrupt: None,
+            corrupt: None, back: None,
         })
 }
 
